@@ -128,8 +128,15 @@ func c07key(i int) string {
 			return fmt.Sprintf("\u0416k%02d", i)
 		}
 	}
+	if c07caseKeys {
+		// neighbours in the key space differ in the case of one letter only: two keys, two attributes
+		return fmt.Sprintf("k%02d", i/2) + []string{"iD", "id"}[i%2]
+	}
 	return fmt.Sprintf("k%02d", i)
 }
+
+// c07caseKeys: the keys of the case come in pairs that differ only in letter case (traceID / traceId)
+var c07caseKeys bool
 
 func genSrcList(r *gen.R, src string, n int, keyspace int, groups bool) []srcKV {
 	var out []srcKV
@@ -166,6 +173,10 @@ func c07main(c *Ctx) {
 		keyspace := gen.Pick(r, []int{4, 8, 16, 40})
 		groups := r.P(60)
 		c07nonASCII = r.P(15)
+		c07caseKeys = !c07nonASCII && idx%6 == 4
+		if c07caseKeys {
+			c.R.Add("cases_whose_keys_come_in_pairs_that_differ_in_letter_case_only", 1)
+		}
 		if c07nonASCII {
 			c.R.Add("cases_with_keys_from_other_scripts", 1)
 		}
